@@ -293,11 +293,23 @@ def b2s(b):
 # ------------------------------------------------------------------------------------------------
 # proof gate
 
-def proof_gate(pid, theorems):
-    """theorems: list of (name, pinned statement). Checks that coq/Properties/<pid>.vo builds, that
+def pins(pid):
+    """pinned statements: the copies taken from the property files (checks/pins.json) and hand-written
+    unfolded forms of statements that are stated through a definition (checks/pins_extra.json)"""
+    out = [tuple(x) for x in json.load(open(os.path.join(VERIF, "checks", "pins.json"))).get(pid, [])]
+    out += [tuple(x) for x in json.load(open(os.path.join(VERIF, "checks", "pins_extra.json"))).get(pid, [])]
+    return out
+
+
+def proof_gate(pid, theorems=None):
+    """theorems: list of (name, pinned statement); default: the pinned copies in checks/pins.json. Checks that coq/Properties/<pid>.vo builds, that
     each pinned statement is what the theorem states (Check (name : statement)), and collects Print
     Assumptions. Returns (info dict, list of failure strings)."""
     fails = []
+    if theorems is None:
+        theorems = pins(pid)
+    if not theorems:
+        return {"obligations": 0, "discharged": 0, "assumptions": {}}, ["no pinned theorems for " + pid]
     try:
         ensure_coq()
     except BuildError as e:
@@ -315,19 +327,19 @@ def proof_gate(pid, theorems):
     with open(gv, "w") as f:
         f.write("From ToughV Require Import Properties.%s.\n" % pid)
         f.write("From ToughV Require Import Model.Base.\n")
-        for name, stmt in theorems:
-            f.write('Goal True. idtac "@@BEGIN %s". Abort.\n' % name)
+        for idx, (name, stmt) in enumerate(theorems):
+            f.write('Goal True. idtac "@@BEGIN %d %s". Abort.\n' % (idx, name))
             f.write("Check (%s : %s).\n" % (name, stmt))
-            f.write('Goal True. idtac "@@ASSUME %s". Abort.\n' % name)
+            f.write('Goal True. idtac "@@ASSUME %d %s". Abort.\n' % (idx, name))
             f.write("Print Assumptions %s.\n" % name)
-            f.write('Goal True. idtac "@@END %s". Abort.\n' % name)
+            f.write('Goal True. idtac "@@END %d %s". Abort.\n' % (idx, name))
     r = sh(["timeout", "600", "coqc", "-noglob", "-Q", COQ, "ToughV", gv], cwd=gdir, check=False)
     out = r.stdout
     assumptions = {}
     discharged = 0
-    for name, stmt in theorems:
-        m = re.search(r"@@BEGIN %s\n(.*?)@@ASSUME %s\n(.*?)@@END %s" % (re.escape(name), re.escape(name), re.escape(name)),
-                      out, re.S)
+    for idx, (name, stmt) in enumerate(theorems):
+        tag = "%d %s" % (idx, re.escape(name))
+        m = re.search(r"@@BEGIN %s\n(.*?)@@ASSUME %s\n(.*?)@@END %s" % (tag, tag, tag), out, re.S)
         if not m:
             fails.append("theorem %s: pinned statement does not check (or theorem missing)" % name)
             continue
